@@ -65,6 +65,12 @@ fn success_values(dom: Dom, thorough: bool) -> Vec<i64> {
     if matches!(dom, Dom::Count | Dom::Offset) {
         v.extend([0xFFFF_FFFFi64, 0xFFFF_F001, 0x1_FFFF_FFFE, 0x7_FFFF_FFF3, 0xFFFF, 0x1_FFFE, 0xFFFF_FFFF_0000_0000u64 as i64 >> 16]);
     }
+    // every errno-sized success (1..=4095, the mirror image of the error band; 4 = EINTR and
+    // 11 = EAGAIN are the values a retry loop compares with): a wrapper that compares the raw
+    // register with a positive errno retries or fails on exactly one of them
+    if !matches!(dom, Dom::Zero | Dom::Addr) {
+        v.extend(0..=4096);
+    }
     if thorough && !matches!(dom, Dom::Zero) {
         let top = match dom {
             Dom::FdPid => 31,
